@@ -739,6 +739,7 @@ class Trial:
                 continue
             p = p0[0]
             still = p in arrs1 and arrs1[p] is arrs0[p][0]
+            ctx.count("B:rebinding-compared")
             if bool(model["bound"][i]) != bool(still):
                 ctx.disagree("heap.run:rebinding", case, [m.key, attr, "model keeps" if model["bound"][i] else "model re-binds",
                                                           "object keeps" if still else "object re-binds"])
@@ -754,6 +755,7 @@ class Trial:
                 continue
             obj = arrs0[p0[0]][0]
             pred = np.array(model["orig"][idx], dtype=float)
+            ctx.count("B:bits-compared" + (":moved" if mover else ""))
             if pred.size != obj.size or not np.array_equal(bits(pred), bits(obj)):
                 self.explained = False
                 ctx.disagree("heap.run:bits:" + attr, case,
@@ -785,6 +787,7 @@ class Trial:
                     cands = None
                 if not cands:
                     continue
+                ctx.count("B:alias-compared")
                 if cands[0] != pred_attr:
                     ctx.disagree("heap.run:alias", case, [m.key, tag, "model: " + str(pred_attr), "object: " + str(cands[0])])
                 if q[0] == 3 and tag == 0 and pred_attr is None:
